@@ -76,7 +76,7 @@ type action struct {
 }
 
 var advKinds = []string{"honest", "honest", "honest", "honest-as-success", "honest-as-challenge", "empty-challenge", "eq-challenge", "badb64-challenge", "garbage-challenge",
-	"empty-success", "garbage-success", "failure", "abort", "unknown-sasl", "foreign", "chardata", "eof", "replay-first"}
+	"empty-success", "garbage-success", "badb64-success", "failure", "abort", "unknown-sasl", "foreign", "chardata", "eof", "replay-first"}
 
 type icase struct {
 	prefs      []string
@@ -304,6 +304,16 @@ func runInitiator(c icase) iresult {
 					res.successRcv = true
 				}
 				return wrap("success", b64([]byte("v=bm90IGEgc2lnbmF0dXJl")))
+			case "badb64-success":
+				// a <success/> whose additional data is not base64 at all is not a
+				// success signal the initiator can act on (RFC 6120 6.4.6,
+				// incorrect-encoding), whatever the mechanism's state
+				if !res.completed && res.authMech == "PLAIN" {
+					honest()
+				}
+				res.tainted = true
+				res.log = append(res.log, "(a <success/> with undecodable additional data is not a success signal)")
+				return wrap("success", rapid_badb64(step))
 			case "replay-first":
 				res.tainted = res.tainted || !res.completed
 				if firstHonest == nil {
@@ -355,6 +365,10 @@ func runInitiator(c icase) iresult {
 	}
 	res.out = peer.Conn.Output()
 	return res
+}
+
+func rapid_badb64(i int) string {
+	return []string{"%%% not base64 %%%", "*garbage*", "dj1hYmN", "===", "dj1h YmM"}[i%5]
 }
 
 func rapid_cond(i int) string {
